@@ -33,6 +33,11 @@ def confirm(item, r):
         return False, f"concrete IL run faulted unexpectedly: {f}"
     if "incomplete" in diffs:
         return (ending[0] == "noedge"), f"concrete IL run ends with {ending[0]}"
+    if "needs-more-than-k-steps" in diffs:
+        nblocks = sum(1 for t in cst.trace if t[0] == "block")
+        kk = r.get("k_bound", 0)
+        ok = ending[0] == "steps" or nblocks > kk
+        return ok, f"concrete IL run from the model state enters {nblocks} blocks ({'step limit hit' if ending[0] == 'steps' else 'ends with ' + ending[0]}); the bound derived from the reference is {kk}"
     # IL next pc, concretely
     il_pc = None
     if ending[0] == "branch":
